@@ -14,7 +14,7 @@ def random_script(rnd, depth=0, allow_file=True):
     ops = []
     for _ in range(rnd.randint(1, 6 if depth else 10)):
         k = rnd.choice(['emit', 'emit', 'emit_empty', 'emit_raw', 'wrapped', 'indent', 'block', 'list',
-                        'placeholder_pos', 'placeholder_named'])
+                        'placeholder_pos', 'placeholder_named', 'capture'])
         if k == 'emit':
             ops.append(('emit', rnd.choice(TEXTS)))
         elif k == 'emit_empty':
@@ -40,6 +40,11 @@ def random_script(rnd, depth=0, allow_file=True):
                         rnd.choice([',', ';', ' {+}']), rnd.random() < 0.5))
         elif k == 'placeholder_pos':
             ops.append(('placeholder_pos', rnd.choice(TEXTS) + '\n'))
+        elif k == 'capture':
+            # lines emitted into a side buffer (capture_emitted_output) and handed back
+            # through a named placeholder or emit_raw: the python_type_stubs idiom
+            ops.append(('capture', [rnd.choice(TEXTS) for _ in range(rnd.randint(1, 3))],
+                        rnd.choice(['placeholder', 'raw']), 'cap%x' % rnd.getrandbits(48)))
         elif k == 'placeholder_named':
             ops.append(('placeholder_named', 'ph%d' % rnd.randint(0, 3), rnd.choice(TEXTS) + '\n'))
     return ops
@@ -108,6 +113,9 @@ class Ref:
                         self.line(delim[1] + after)
             elif k == 'placeholder_pos':
                 self.out.append(op[1])
+            elif k == 'capture':
+                for t in op[1]:
+                    self.line(t)
             elif k == 'placeholder_named':
                 self.out.append(('NAMED', op[1]))
                 self.named[op[1]] = op[2]
@@ -137,6 +145,17 @@ def run_real(backend, ops):
         elif k == 'placeholder_pos':
             backend.emit_placeholder()
             backend.add_positional_placeholder(op[1])
+        elif k == 'capture':
+            import io
+            buf = io.StringIO()
+            with backend.capture_emitted_output(buf):
+                for t in op[1]:
+                    backend.emit(t)
+            if op[2] == 'raw':
+                backend.emit_raw(buf.getvalue())
+            else:
+                backend.emit_placeholder(op[3])
+                backend.add_named_placeholder(op[3], buf.getvalue())
         elif k == 'placeholder_named':
             backend.emit_placeholder(op[1])
             backend.add_named_placeholder(op[1], op[2])
